@@ -93,7 +93,7 @@ class Prov:
         if m:
             c = [e for e in p.events[:i] if e[0] == 'call' and e[3] == m.group(2)]
             if c and c[0][1] in eavobj.CONVERTERS:
-                b = [k for k, v in eavobj.SUCCESS.items() if p.passed(f'({c[0][3]} != {v})', False, before=i)]
+                b = [k for k, v in eavobj.SUCCESS.items() if p.passed(f'({c[0][3]} != {v})', False, before=i) or p.passed(f'({c[0][3]} == {v})', True, before=i)]
                 return bool(b)
             return False
         m = re.fullmatch(r"(\w+)@L\d+'*", X)                          # loop-carried pointer: every value it is ever given must be safe
@@ -378,16 +378,18 @@ def run(ck):
                 if p.calls('free'): why.append('frees on a path')
             r67.instance(site, ok=not why, wclass='record-lifetime', what='; '.join(sorted(set(why))))
     # ---- R6.6 abort sites
-    r66 = ck.rule('R6.6', 'abort / assert / exit sites in library units are exactly: assert(record != NULL) after malloc in the six e-mail functions, and the default arm of the class switch (unreachable: every class has an arm, C08 R8.1)', 9)
+    r66 = ck.rule('R6.6', 'abort / assert / exit sites in library units are exactly: allocation-failure asserts (the only branch before them is `malloc(..) == NULL`) and the default arm of the class switch (unreachable: every class has an arm, C08 R8.1)', 9)
     for key, tu in sorted(tus.items()):
         for fname, f in tu.own_functions().items():
             for name, call in astutil.calls_in(f):
                 if name not in cfgpaths.NORETURN: continue
                 ok = False
-                if name == '__assert_fail' and fname.endswith('_email'):
-                    eng, paths = cfgpaths.summarise(tu, fname)
-                    ab = [p for p in paths if p.events and p.events[-1][0] == 'abort']
-                    ok = bool(ab) and all(p.passed('malloc#1', False) and len(p.conds()) == 1 for p in ab)
+                if name == '__assert_fail':
+                    # an allocation-failure assert: the only branch decision on every aborting path is `malloc result == NULL`
+                    # (in the e-mail functions themselves or in an allocator helper they call)
+                    eng, paths = cfgpaths.summarise(tu, fname, inline=False)
+                    ab = [p for p in paths if p.events and p.events[-1][0] == 'abort' and any(c[1] == '__assert_fail' for c in p.calls())]
+                    ok = bool(ab) and all(len(p.conds()) == 1 and re.fullmatch(r'malloc#\d+', p.conds()[0][0]) and p.conds()[0][1] is False for p in ab)
                 if name == 'abort' and fname == 'eav_is_email' and key.endswith('/eav.c'):
                     eng, paths = cfgpaths.summarise(tu, fname)
                     ab = [p for p in paths if p.events and p.events[-1][0] == 'abort']
